@@ -313,18 +313,33 @@ def worker(case: Dict[str, Any]) -> CaseResult:
                 expected_vars = {}
                 serialize_expected = []
                 top_level_scalar_dirty = None
+                listed_extra: List[Any] = []     # calls the listed behaviour adds: serialize(UNSET) / serialize(None) / serialize(<whole list>)
+                listed_removed: List[Any] = []   # per-item calls it makes instead of
+                listed_vars: Dict[str, str] = {}  # variable -> which listed mechanism governs its wire value
                 for vd in opnode.variable_definitions or ():
                     vname = vd.variable.name.value
                     t = type_from_ast(schema_ref, vd.type)
                     named = get_named_type(t)
                     is_cfg_scalar = isinstance(named, GraphQLScalarType) and variant_of.get(named.name) in ("both", "deprecated_import", "serialize_str", "ctor_parse")
                     v = tree[vname]
+                    si_ = index_of.get(named.name)
                     if is_cfg_scalar and str(t).startswith("["):
                         top_level_scalar_dirty = "scalar-variable-list-passed-whole-to-serialize"
                         var_feats.add("var.list_custom_scalar")
+                        listed_vars[vname] = "scalar-variable-list-passed-whole-to-serialize"
+                        if v is OMIT:
+                            listed_extra.append((si_, "UNSET"))
+                        elif v is None:
+                            listed_extra.append((si_, "None"))
+                        else:
+                            _, occ_ = wire_tree(t, v)
+                            listed_removed.extend((i_, repr(in_python(scalars[i_], tok_))) for i_, tok_ in occ_)
+                            listed_extra.append((si_, "<whole-list>"))
                     elif is_cfg_scalar and (v is OMIT or v is None):
                         top_level_scalar_dirty = top_level_scalar_dirty or "scalar-variable-serialize-called-for-unset-or-none"
                         var_feats.add("var.optional_custom_scalar_absent")
+                        listed_vars[vname] = "scalar-variable-serialize-called-for-unset-or-none"
+                        listed_extra.append((si_, "UNSET" if v is OMIT else "None"))
                     if v is OMIT:
                         continue
                     w, occ = wire_tree(t, v)
@@ -362,12 +377,29 @@ def worker(case: Dict[str, Any]) -> CaseResult:
                     continue
                 count("serialize_calls_expected", len(ser_want))
                 if ser_calls != ser_want:
-                    violations.append(Violation(PROP, "serialize-exactly-once", "%s: serialize calls %r, expected one per non-null occurrence %r" % (op_name, ser_calls[:12], ser_want[:12]),
-                                                fl, replay_case, mech=mech_ser))
+                    # A difference belongs to the listed findings only if it is EXACTLY what they describe: the expected calls, minus the per-item calls of
+                    # list variables, plus one call per listed variable with UNSET / None / the whole list. Anything else in the same operation is new.
+                    import collections as _c
+
+                    def _norm(a_):
+                        return "UNSET" if "UnsetType" in a_ or a_ == "UNSET" else ("<whole-list>" if a_.startswith("[") else a_)
+                    model = _c.Counter(ser_want)
+                    model.subtract(_c.Counter(listed_removed))
+                    model.update(_c.Counter(listed_extra))
+                    model = +model
+                    observed = _c.Counter((i_, _norm(a_)) for i_, a_ in ser_calls)
+                    is_listed = bool(top_level_scalar_dirty) and observed == model
+                    violations.append(Violation(PROP, "serialize-exactly-once", "%s: serialize calls %r, expected one per non-null occurrence %r%s" % (
+                        op_name, ser_calls[:12], ser_want[:12], "" if is_listed or not top_level_scalar_dirty else " (and not what the listed behaviour for optional / list variables would give: %r)" % sorted(model.items())[:12]),
+                        fl, replay_case, mech=(mech_ser if is_listed else "c07:serialize-once")))
                 sent = server.captured[-1].get("variables") or {}
-                if sent != json.loads(json.dumps(expected_vars)):
+                want_sent = json.loads(json.dumps(expected_vars))
+                if sent != want_sent:
+                    # only the variables governed by a listed mechanism may differ (their value is whatever serialize made of UNSET / None / the list)
+                    rest_equal = {k_: v_ for k_, v_ in sent.items() if k_ not in listed_vars} == {k_: v_ for k_, v_ in want_sent.items() if k_ not in listed_vars}
                     violations.append(Violation(PROP, "wire-is-serialize-of-value", "%s: variables sent %s expected %s" % (
-                        op_name, json.dumps(sent, sort_keys=True)[:600], json.dumps(expected_vars, sort_keys=True)[:600]), fl, replay_case, mech=mech_ser if top_level_scalar_dirty else "c07:wire-value"))
+                        op_name, json.dumps(sent, sort_keys=True)[:600], json.dumps(expected_vars, sort_keys=True)[:600]), fl, replay_case,
+                        mech=(mech_ser if (top_level_scalar_dirty and rest_equal) else "c07:wire-value")))
                 # ---- parsing side
                 resp = server.responses[-1] if server.responses else {}
                 verrs = server.validation_errors[-1] if server.validation_errors else []
